@@ -179,8 +179,16 @@ def run(ch, tier):
     res = Result()
     cfg = swarm(ch.s('cfg'), Cfg(contracts=True, sends=False), tier)
     cfg.max_states = min(cfg.max_states, 12)
+    if ch.s('cfg').flag(1, 2):
+        cfg.history = cfg.force_history = True
+        cfg.max_states = max(cfg.max_states, 8)
     sp = gen_spec(ch.s('chart'), cfg)
     doc = to_dict(sp)
+    # valid variation: a history state may omit its memory
+    for sd, _, kind in walk(doc['statechart']['root state']):
+        if kind == 'history' and ch.s('faults').choice(3) == 1:
+            sd.pop('memory', None)
+            res.stats['valid_history_without_memory'] += 1
     cfp = fp(sp.fingerprint())
     outcome, sc = attempt(doc)
     if outcome != 'accepted':
